@@ -15,7 +15,7 @@ m["breaks_property"] = m.get("property")
 m["confirmed_here"] = {
     "suite_with_patch": "ctest in the scratch worktree with the patch applied: 35/35 passed",
     "demo_with_patch": "seed/run.sh exits non-zero (bug manifests)",
-    "demo_without_patch": "seed/run.sh exits 0 after git stash + rebuild",
+    "demo_without_patch": "seed/run.sh exits 0 with the patch reverted (git apply -R) and the library rebuilt",
 }
 m["detected_by_checks"] = detected
 m["detection"] = how
